@@ -112,6 +112,11 @@ class MP2SolverPySCF(ElectronicStructureSolver):
         one_rdm = self.mp2_fragment.make_rdm1()
         two_rdm = self.mp2_fragment.make_rdm2()
 
+        # A ROHF reference is treated by pyscf as UMP2: sum over the spin blocks.
+        if not self.uhf and isinstance(one_rdm, tuple):
+            one_rdm = np.sum(one_rdm, axis=0)
+            two_rdm = np.sum((two_rdm[0], 2*two_rdm[1], two_rdm[2]), axis=0)
+
         return one_rdm, two_rdm
 
     def get_mp2_amplitudes(self):
